@@ -538,7 +538,7 @@ func (n *Node) render(dir string, b *strings.Builder) {
 			if form == "" {
 				form = " nil"
 			}
-			fmt.Fprintf(b, "(progn (sim-emit \"leaf\" \"ret\" \"%s\" \"%s\") (return-from %s%s))", n.Name, val, n.Name, form)
+			fmt.Fprintf(b, "(progn (sim-emit \"leaf\" \"ret\" \"%s\" \"%s\") (return-from %s%s))", n.Name, val, fnName(n.Name, dir), form)
 		}
 	case "go":
 		fmt.Fprintf(b, "(progn (sim-emit \"leaf\" \"go\" \"%s\") (go %s))", n.Name, n.Name)
@@ -598,7 +598,10 @@ func (n *Node) render(dir string, b *strings.Builder) {
 	case "fn":
 		// the kids are the body of a function defined here: exits stay
 		// inside it, (return-from fnN v) leaves through its implicit block
-		fmt.Fprintf(b, "(progn (defun fn%d () %s) (let ((bv%d (fn%d))) (sim-emit \"bend\" \"fn%d\" bv%d) bv%d))", n.ID, all(), n.ID, n.ID, n.ID, n.ID, n.ID)
+		// (the name is unique per case: redefining a function of an earlier
+		// case of the same process takes another path through defun - the
+		// determinism self-test showed digests that depended on it)
+		fmt.Fprintf(b, "(progn (defun %s () %s) (let ((bv%d (%s))) (sim-emit \"bend\" \"fn%d\" bv%d) bv%d))", fnName(n.Name, dir), all(), n.ID, fnName(n.Name, dir), n.ID, n.ID, n.ID)
 	case "wos":
 		fmt.Fprintf(b, "(with-open-stream (ws%d (make-string-input-stream \"abc\")) %s)", n.ID, all())
 	case "letstar":
@@ -766,6 +769,15 @@ func (n *Node) render(dir string, b *strings.Builder) {
 		fmt.Fprintf(b, "(with-open-file (f%d %q :direction :output :if-exists :append :if-does-not-exist :create) (sim-emit \"opened\" %d) (format f%d \"line~%%\") (sim-emit \"wrote\" %d) %s%s)",
 			n.ID, path, n.ID, n.ID, n.ID, all(), tail)
 	}
+}
+
+// fnName is the name a generated function (node kind "fn", block name fnN)
+// has in the program text: unique per case.
+func fnName(name, dir string) string {
+	if strings.HasPrefix(name, "fn") {
+		return name + "x" + filepath.Base(dir)
+	}
+	return name
 }
 
 func errForm(kind string) string {
